@@ -46,6 +46,7 @@ type c14Rec struct {
 	out      *verifkit.Out
 	trace    bool   // write event lines
 	lastGBH  string // what getByHash saw in the current (sequential) request: "-", "err", hex
+	gbhs     []string // every lookup result of the current (sequential) request, in order
 	faultAt  int    // inject a fault at the n-th instrumented call from now (0 = none)
 	calls    int
 	faulted  bool
@@ -66,6 +67,13 @@ func (r *c14Rec) fault() bool {
 	return false
 }
 
+func (r *c14Rec) setGBH(v string) {
+	r.lastGBH = v
+	if len(r.gbhs) < 64 {
+		r.gbhs = append(r.gbhs, v)
+	}
+}
+
 func (r *c14Rec) ev(format string, a ...interface{}) {
 	if r.trace {
 		r.out.T(fmt.Sprintf(format, a...), "ok")
@@ -81,17 +89,17 @@ func (s *c14Store) FindByKey(_ context.Context, key []byte) ([]byte, error) {
 	s.rec.mu.Lock()
 	defer s.rec.mu.Unlock()
 	if s.rec.fault() {
-		s.rec.lastGBH = "err"
+		s.rec.setGBH("err")
 		s.rec.ev("sfind %s err", verifkit.Hex(key))
 		return nil, errors.New("injected storage fault")
 	}
 	v, ok := s.m[string(key)]
 	if !ok {
-		s.rec.lastGBH = "err"
+		s.rec.setGBH("err")
 		s.rec.ev("sfind %s miss", verifkit.Hex(key))
 		return nil, errors.New("sql: no rows in result set")
 	}
-	s.rec.lastGBH = verifkit.Hex(v)
+	s.rec.setGBH(verifkit.Hex(v))
 	s.rec.ev("sfind %s %s", verifkit.Hex(key), verifkit.Hex(v))
 	return append([]byte{}, v...), nil
 }
@@ -119,13 +127,13 @@ func (c *c14Cache) Get(ctx context.Context, key []byte) ([]byte, error) {
 	c.rec.mu.Lock()
 	defer c.rec.mu.Unlock()
 	if c.rec.fault() {
-		c.rec.lastGBH = "err"
+		c.rec.setGBH("err")
 		c.rec.ev("cget %s err", verifkit.Hex(key))
 		return nil, errors.New("injected cache fault")
 	}
 	v, err := c.inner.Get(ctx, key)
 	if v != nil {
-		c.rec.lastGBH = verifkit.Hex(v)
+		c.rec.setGBH(verifkit.Hex(v))
 		c.rec.ev("cget %s %s", verifkit.Hex(key), verifkit.Hex(v))
 	} else {
 		c.rec.ev("cget %s miss", verifkit.Hex(key))
@@ -318,6 +326,7 @@ type c14Indirect struct {
 	rec   *c14Rec
 	store *c14Store
 	svc   *indirectIssuanceChainService
+	corruptKind map[string]string
 }
 
 func (e *c14Env) mkLogInfo(b *c14Backend, svc leafChainBuilder) *logInfo {
@@ -335,7 +344,7 @@ func (e *c14Env) mkIndirect(name string, inner cache.IssuanceChainCache) *c14Ind
 	st := &c14Store{rec: rec, m: map[string][]byte{}}
 	svc := newIndirectIssuanceChainService(st, &c14Cache{rec: rec, inner: inner})
 	b := newC14Backend()
-	return &c14Indirect{name: name, li: e.mkLogInfo(b, svc), back: b, rec: rec, store: st, svc: svc}
+	return &c14Indirect{name: name, li: e.mkLogInfo(b, svc), back: b, rec: rec, store: st, svc: svc, corruptKind: map[string]string{}}
 }
 
 func c14Body(chain [][]byte) string {
@@ -498,6 +507,11 @@ func c14Lens(l [][]byte) []int {
 // serve reads entry i from the external-storage instance through one of the two endpoints and checks it.
 // what: "" normal, "fault@n", "corrupt", "delete" describe the state the harness put the store in.
 func (e *c14Env) serve(ind *c14Indirect, i int, eap bool, faultAt int, what string) {
+	e.serveL(ind, i, eap, faultAt, what, "")
+}
+
+// serveL: label names the history that led here (part of the failure key).
+func (e *c14Env) serveL(ind *c14Indirect, i int, eap bool, faultAt int, what, label string) {
 	ind.rec.mu.Lock()
 	ind.rec.calls, ind.rec.faultAt, ind.rec.faulted, ind.rec.lastGBH = 0, faultAt, false, "-"
 	ind.rec.mu.Unlock()
@@ -522,6 +536,9 @@ func (e *c14Env) serve(ind *c14Indirect, i int, eap bool, faultAt int, what stri
 	ind.rec.faultAt = 0
 	ind.rec.mu.Unlock()
 	key := fmt.Sprintf("serve %s cache=%s state=%s", ep, ind.name, what)
+	if label != "" {
+		key += " history=" + label
+	}
 	if faultAt > 0 {
 		key += fmt.Sprintf(" fault@%d", faultAt)
 	}
@@ -556,7 +573,18 @@ func (e *c14Env) serve(ind *c14Indirect, i int, eap bool, faultAt int, what stri
 	}
 	e.out.T(fmt.Sprintf("serve %s %s", verifkit.Hex(stored), gbh), ans)
 	// the property
+	corruptSeen := false
+	if what == "corrupt" {
+		if h := c14HashOf(stored); h != nil {
+			ind.rec.mu.Lock()
+			cur, ok := ind.store.m[string(h)]
+			ind.rec.mu.Unlock()
+			corruptSeen = ok && gbh == verifkit.Hex(cur) // the lookup returned the corrupted bytes (not a cached good copy)
+		}
+	}
 	switch {
+	case status == 200 && corruptSeen:
+		e.out.Fail(key+" "+ind.corruptKind[string(c14HashOf(stored))], fmt.Sprintf("the stored chain is corrupted (lookup returned %d corrupted bytes) but the entry was served with success (%d bytes of extra_data, in-backend mode has %d)", (len(gbh)+1)/2, len(served), len(want)))
 	case status == 200 && string(served) != string(want):
 		e.out.Fail(key, fmt.Sprintf("served extra_data differs from the in-backend mode: got %d bytes, want %d bytes", len(served), len(want)))
 	case status == 200:
@@ -636,7 +664,7 @@ func TestVerifC14(t *testing.T) {
 		out.Count("mode:cache-" + cc.name)
 
 		// --- sequential phase: submissions (some with a fault at the k-th storage/cache call)
-		nSub := verifkit.N(10, 60)
+		nSub := verifkit.N(10, 150)
 		for k := 0; k < nSub; k++ {
 			s := pool[r.Intn(len(pool))]
 			fa := 0
@@ -645,8 +673,11 @@ func TestVerifC14(t *testing.T) {
 			}
 			e.submit(ind, s.chain, s.precert, fa)
 		}
+		// the history of seeded change C14-1 (cache filled although storage refused)
+		e.refusedThenAccepted(ind, false)
+		e.refusedThenAccepted(ind, true)
 		// synthetic boundary lengths through the services
-		for k := 0; k < verifkit.N(6, 40); k++ {
+		for k := 0; k < verifkit.N(6, 100); k++ {
 			n := 1 + r.Intn(4)
 			if r.Intn(6) == 0 {
 				n = 1
@@ -665,7 +696,8 @@ func TestVerifC14(t *testing.T) {
 			e.synth(ind, certs, r.Bool())
 		}
 		if ci == 0 && verifkit.Thorough() {
-			e.synth(ind, [][]byte{r.Bytes(300), r.Bytes(1<<24 - 1)}, false) // 2^24-1: the largest certificate
+			// a chain whose DER lengths need three length bytes and whose TLS body is close to a megabyte
+			e.synth(ind, [][]byte{r.Bytes(300), r.Bytes(70000), r.Bytes(300000), r.Bytes(1 << 16)}, true)
 		}
 		// legacy entries: leaves that were stored with their full chain before the feature was enabled
 		for k := 0; k < 3 && e.dback.size() > 0; k++ {
@@ -689,8 +721,22 @@ func TestVerifC14(t *testing.T) {
 			e.serve(ind, i, false, 0, "")
 			e.serve(ind, i, true, 0, "")
 		}
-		for k := 0; k < verifkit.N(12, 80) && n > 0; k++ {
+		for k := 0; k < verifkit.N(12, 200) && n > 0; k++ {
 			e.serve(ind, r.Intn(n), r.Bool(), 1+r.Intn(2), "")
+		}
+		// multi-entry ranges: clean, and with a fault at the k-th storage/cache call (mostly on a non-first leaf)
+		for k := 0; k < verifkit.N(16, 200) && n > 3; k++ {
+			ln := 3 + r.Intn(5)
+			a := r.Intn(n - 2)
+			b := a + ln - 1
+			if b >= n {
+				b = n - 1
+			}
+			fa := 0
+			if k%3 != 0 {
+				fa = 1 + r.Intn(2*ln)
+			}
+			e.serveRange(ind, a, b, fa, "", "")
 		}
 		if strings.Contains(cc.name, "1ms") {
 			time.Sleep(3 * time.Millisecond) // everything cached has expired
@@ -732,27 +778,55 @@ func TestVerifC14(t *testing.T) {
 			}
 			ind.rec.mu.Lock()
 			v := ind.store.m[k]
-			switch r.Intn(5) {
+			kind := r.Intn(9)
+			var nv []byte
+			name := ""
+			switch kind {
 			case 0:
 				delete(ind.store.m, k)
 				damaged[k] = "delete"
 				ind.rec.ev("sdel %s", verifkit.Hex([]byte(k)))
 			case 1:
-				nv := append(append([]byte{}, v...), 0)
-				ind.store.m[k], damaged[k] = nv, "corrupt"
-				ind.rec.ev("stamper %s %s", verifkit.Hex([]byte(k)), verifkit.Hex(nv))
+				nv, name = append(append([]byte{}, v...), 0), "trailing-zero"
 			case 2:
-				nv := append([]byte{}, v[:len(v)-1]...)
-				ind.store.m[k], damaged[k] = nv, "corrupt"
-				ind.rec.ev("stamper %s %s", verifkit.Hex([]byte(k)), verifkit.Hex(nv))
+				nv, name = append([]byte{}, v[:len(v)-1]...), "last-byte-cut"
 			case 3:
-				nv := r.Bytes(1 + r.Intn(40))
-				ind.store.m[k], damaged[k] = nv, "corrupt"
-				ind.rec.ev("stamper %s %s", verifkit.Hex([]byte(k)), verifkit.Hex(nv))
+				nv, name = r.Bytes(1+r.Intn(40)), "random-bytes"
+			case 4:
+				nv, name = []byte{}, "emptied"
+			case 5, 6:
+				// structure-preserving: the outer SEQUENCE is made to end on an earlier element boundary, the remaining
+				// elements follow it as trailing data (e.g. `30 2c …` -> `30 12 …`)
+				if certs, body, ok := c14ParseChain(v); ok && len(certs) >= 1 {
+					keep := r.Intn(len(certs))
+					head := derOf(certs[:keep])
+					nv = append(append([]byte{}, head...), body[len(head)-c14HeaderLen(head):]...)
+					name = fmt.Sprintf("outer-length-shortened-to-%d-of-%d-certs", keep, len(certs))
+				} else {
+					nv, name = append(append([]byte{}, v...), 0x30, 0x00), "valid-sequence-then-empty-sequence"
+				}
+			case 7:
+				// outer length longer than what is available
+				if _, body, ok := c14ParseChain(v); ok {
+					nv, name = append(c14Header(len(body)+1+r.Intn(300)), body...), "outer-length-longer-than-available"
+				} else {
+					nv, name = []byte{0x30, 0x05, 0x30}, "outer-length-longer-than-available"
+				}
 			default:
-				nv := []byte{}
-				ind.store.m[k], damaged[k] = nv, "corrupt"
-				ind.rec.ev("stamper %s -", verifkit.Hex([]byte(k)))
+				// a valid SEQUENCE followed by junk (random bytes, or a second valid SEQUENCE)
+				if r.Bool() {
+					nv, name = append(append([]byte{}, v...), r.Bytes(1+r.Intn(20))...), "valid-sequence-then-random-bytes"
+				} else {
+					nv, name = append(append([]byte{}, v...), v...), "valid-sequence-twice"
+				}
+			}
+			if kind != 0 {
+				if string(nv) == string(v) { // never a no-op
+					nv, name = append(append([]byte{}, v...), 0xff), "trailing-ff"
+				}
+				ind.store.m[k], damaged[k], ind.corruptKind[k] = nv, "corrupt", "corruption="+name
+				ind.rec.ev("stamper %s %s", verifkit.Hex([]byte(k)), verifkit.Hex(nv))
+				e.out.Count("mode:corruption-" + strings.SplitN(name, "-to-", 2)[0])
 			}
 			ind.rec.mu.Unlock()
 		}
@@ -762,6 +836,22 @@ func TestVerifC14(t *testing.T) {
 				what = damaged[string(h)]
 			}
 			e.serve(ind, i, r.Bool(), 0, what)
+		}
+		// ranges over the damaged store: the damaged chain is usually not the first of the range
+		for k := 0; k < verifkit.N(20, 250) && n > 3; k++ {
+			ln := 3 + r.Intn(5)
+			a := r.Intn(n - 2)
+			b := a + ln - 1
+			if b >= n {
+				b = n - 1
+			}
+			state := ""
+			for i := a; i <= b; i++ {
+				if h := c14HashOf(ind.back.extra(i)); h != nil && damaged[string(h)] != "" {
+					state += fmt.Sprintf("%s@%d,", damaged[string(h)], i-a)
+				}
+			}
+			e.serveRange(ind, a, b, 0, strings.TrimSuffix(state, ","), "")
 		}
 		// --- unknown layouts handed to the reader
 		for _, junk := range [][]byte{{}, {0}, {0, 0}, {0, 0, 1}, {0, 0, 1, 7, 0, 0}, r.Bytes(5), {0, 0, 0, 0}, {0, 1, 9, 9}} {
@@ -796,6 +886,10 @@ func TestVerifC14(t *testing.T) {
 			// keep the direct backend aligned
 			e.dback.fl.QueueLeafF(&trillian.QueueLeafRequest{Leaf: &trillian.LogLeaf{LeafValue: []byte{1}, ExtraData: junk}})
 		}
+		// stop tracing this instance before the model is reset: a late detached cache fill must not land after it
+		ind.rec.mu.Lock()
+		ind.rec.trace = false
+		ind.rec.mu.Unlock()
 		out.T("reset", "ok")
 
 		// --- concurrent phase (run under -race): writers and readers, faults at random calls
@@ -809,6 +903,160 @@ type c14Sub struct {
 }
 
 func tlsUnmarshal(b []byte, v interface{}) ([]byte, error) { return tls.Unmarshal(b, v) }
+
+// c14ParseChain reads a stored DER chain with the standard library: the certificates and the outer SEQUENCE's body.
+func c14ParseChain(der []byte) (certs [][]byte, body []byte, ok bool) {
+	var rv asn1.RawValue
+	rest, err := asn1.Unmarshal(der, &rv)
+	if err != nil || len(rest) != 0 || rv.Tag != asn1.TagSequence {
+		return nil, nil, false
+	}
+	type asn1Cert struct{ Data []byte }
+	var l []asn1Cert
+	if rest, err := asn1.Unmarshal(der, &l); err != nil || len(rest) != 0 {
+		return nil, nil, false
+	}
+	for _, c := range l {
+		certs = append(certs, c.Data)
+	}
+	return certs, rv.Bytes, true
+}
+
+// c14Header writes a SEQUENCE header for n content bytes.
+func c14Header(n int) []byte {
+	switch {
+	case n < 128:
+		return []byte{0x30, byte(n)}
+	case n < 256:
+		return []byte{0x30, 0x81, byte(n)}
+	case n < 65536:
+		return []byte{0x30, 0x82, byte(n >> 8), byte(n)}
+	default:
+		return []byte{0x30, 0x83, byte(n >> 16), byte(n >> 8), byte(n)}
+	}
+}
+
+// c14HeaderLen is the length of the outer header of a DER value.
+func c14HeaderLen(der []byte) int {
+	if der[1] < 128 {
+		return 2
+	}
+	return 2 + int(der[1]&0x7f)
+}
+
+// serveRange reads entries [a, b] of the external-storage instance in one get-entries call and checks the property:
+// status 200 => at least one entry, every served entry carries exactly the in-backend bytes of its index (never the
+// hash form); otherwise an error status. damagedAt lists the positions whose stored chain was damaged.
+func (e *c14Env) serveRange(ind *c14Indirect, a, b int, faultAt int, state, label string) {
+	ind.rec.mu.Lock()
+	ind.rec.calls, ind.rec.faultAt, ind.rec.faulted, ind.rec.lastGBH, ind.rec.gbhs = 0, faultAt, false, "-", nil
+	ind.rec.mu.Unlock()
+	var status int
+	var body []byte
+	p := verifkit.Guard(func() {
+		w := vServe(ind.li, "get-entries", "GET", url.Values{"start": {fmt.Sprint(a)}, "end": {fmt.Sprint(b)}}, "")
+		status, body = w.Code, w.Body.Bytes()
+	})
+	ind.rec.mu.Lock()
+	faulted := ind.rec.faulted
+	gbhs := append([]string{}, ind.rec.gbhs...)
+	ind.rec.faultAt = 0
+	ind.rec.mu.Unlock()
+	key := fmt.Sprintf("range get-entries %d entries cache=%s state=%s", b-a+1, ind.name, state)
+	if label != "" {
+		key += " history=" + label
+	}
+	if faultAt > 0 {
+		key += fmt.Sprintf(" fault@%d", faultAt)
+	}
+	if p != "" {
+		e.out.Fail("panic:"+key, p)
+		return
+	}
+	var rsp ct.GetEntriesResponse
+	if status == 200 {
+		if err := json.Unmarshal(body, &rsp); err != nil {
+			e.out.Fail(key, "bad JSON")
+			return
+		}
+	}
+	op := fmt.Sprintf("range %d", b-a+1)
+	for i := a; i <= b; i++ {
+		op += " " + verifkit.Hex(ind.back.extra(i))
+	}
+	op += fmt.Sprintf(" ; %d", len(gbhs))
+	for _, g := range gbhs {
+		op += " " + g
+	}
+	ans := fmt.Sprint(status)
+	if status == 200 {
+		ans += fmt.Sprintf(" %d", len(rsp.Entries))
+		for _, en := range rsp.Entries {
+			ans += " " + verifkit.Hex(en.ExtraData)
+		}
+	} else if status >= 500 {
+		ans = "5xx"
+	}
+	e.out.T(op, ans)
+	switch {
+	case status == 200:
+		if len(rsp.Entries) == 0 || len(rsp.Entries) > b-a+1 {
+			e.out.Fail(key, fmt.Sprintf("%d entries served for a range of %d", len(rsp.Entries), b-a+1))
+		}
+		for j, en := range rsp.Entries {
+			want := e.dback.extra(a + j)
+			if string(en.ExtraData) != string(want) {
+				form := "other bytes"
+				if c14HashOf(en.ExtraData) != nil && string(en.ExtraData) == string(ind.back.extra(a+j)) {
+					form = "the raw hash form stored in the backend"
+				}
+				e.out.Fail(fmt.Sprintf("%s bad-position=%d", key, j), fmt.Sprintf("status 200 but entry %d of the reply (index %d) carries %s (%d bytes) instead of the in-backend extra_data (%d bytes)", j, a+j, form, len(en.ExtraData), len(want)))
+				break
+			}
+		}
+		if len(rsp.Entries) == b-a+1 {
+			e.out.Count("class:range-served-identical")
+		} else {
+			e.out.Count("class:range-served-short")
+		}
+	case status >= 500 && (faulted || state != ""):
+		e.out.Count("class:range-fault-gives-error")
+	default:
+		e.out.Fail(key, fmt.Sprintf("status %d without any fault", status))
+	}
+}
+
+// refusedThenAccepted plays: submission refused because storage.Add fails -> the same chain submitted again and
+// accepted -> other chains until an LRU of size 1 or 2 has evicted it (and a 1 ms TTL has expired) -> the accepted
+// entry is read. An accepted entry must be served with the in-backend bytes.
+func (e *c14Env) refusedThenAccepted(ind *c14Indirect, precert bool) {
+	chain := e.pki.chain(1+e.r.Intn(3), precert, e.r.Intn(200))
+	const label = "add(storage-fault)-refused;same-chain-accepted;3-other-chains;read"
+	n0 := ind.back.size()
+	time.Sleep(time.Millisecond) // let earlier detached cache fills finish: they count as instrumented calls
+	if e.submit(ind, chain, precert, 2) { // call 1 = cache.Get, call 2 = storage.Add
+		e.out.Count("class:history-fault-did-not-hit-add")
+	}
+	if ind.back.size() != n0 {
+		return
+	}
+	time.Sleep(2 * time.Millisecond) // detached goroutines
+	if !e.submit(ind, chain, precert, 0) {
+		e.out.Fail("history "+label+" cache="+ind.name, "the resubmission was not accepted")
+		return
+	}
+	idx := ind.back.size() - 1
+	for k := 0; k < 3; k++ {
+		e.submit(ind, e.pki.chain(1+k%2, k == 1, 10*k), k == 1, 0)
+	}
+	time.Sleep(3 * time.Millisecond)
+	e.out.Count("class:history-refused-then-accepted")
+	e.serveL(ind, idx, false, 0, "", label)
+	e.serveL(ind, idx, true, 0, "", label)
+	if idx >= 2 {
+		e.serveRange(ind, idx-2, ind.back.size()-1, 0, "", label)
+	}
+}
 
 // c14HashOf extracts the hash field of a stored extra data in one of the two hash layouts.
 func c14HashOf(extra []byte) []byte {
@@ -833,7 +1081,7 @@ func (e *c14Env) concurrent(cc c14CacheCfg, pool []c14Sub) {
 	want := sync.Map{} // leaf value -> extra data of the in-backend mode
 	stop := make(chan struct{})
 	writers, readers := 3, 3
-	perWriter := verifkit.N(8, 40)
+	perWriter := verifkit.N(8, 100)
 	for w := 0; w < writers; w++ {
 		rr := e.r.Fork()
 		wg.Add(1)
@@ -934,7 +1182,9 @@ func (e *c14Env) concurrent(cc c14CacheCfg, pool []c14Sub) {
 	// afterwards, without faults, every entry must be served identically
 	ind.rec.mu.Lock()
 	ind.rec.faultPct = 0
+	ind.rec.trace = false
 	ind.rec.mu.Unlock()
+	e.out.T("reset", "ok")
 	dback.mu.Lock()
 	for _, l := range dback.leaves {
 		want.Store(string(l.LeafValue), l.ExtraData)
